@@ -26,6 +26,13 @@ def register(claim, na):
           "observation of serialised bytes.",
           "trusts serde derive + serde_json for the Serde* mirror types, derived Debug output format, the NonZero invariant; payloads (paths, pids, metadata) are opaque values that the conversions only move",
           "DESIGN.md section 5 C16")
+    claim("C17", "other", "THIR pattern tables over the enumerated FileEventKind domain vs the function's own doc table and the sibling FsEventKind table; MIR dominance for sort-before-join, skip edges and loop nesting",
+          "Decides the structural part only: for all 41 file-event kinds the variable/label chosen is the documented one and agrees with the "
+          "sibling JSON table; entries come from a HashSet and are sorted before the join on every path; path-less events reach the next "
+          "iteration without touching an accumulator; kinds come only from FileEventKind tags; the line format nests events > paths > kinds. "
+          "The path algebra (common prefix, strip/join round trip) is value-level and explicitly not claimed.",
+          "trusts HashSet de-duplication, slice::sort ordering of OsString (byte order), Path::strip_prefix/common-prefix arithmetic (undecided remainder)",
+          "DESIGN.md section 5 C17")
     for p in ["C01", "C02", "C03", "C04", "C05", "C06", "C07", "C08", "C09", "C10", "C11", "C12", "C13", "C14",
-              "C15", "C17", "C18"]:
+              "C15", "C18"]:
         na(p, PENDING)
